@@ -788,6 +788,10 @@ func (c *Canary) send(state *State, payload []byte, flags tcp.Flag) error {
 
 	}
 
+	if ae == nil {
+		return fmt.Errorf("no arp entry or route for %s", dst)
+	}
+
 	ef := ethernet.Frame{
 		Source:      c.networkInterfaces[0].HardwareAddr,
 		Destination: ae.HardwareAddress,
